@@ -245,6 +245,7 @@ def plan(tier, seed):
     else:
         worlds[seed % 2] = (worlds[seed % 2][0], ef, 4)
         worlds.append(slow)
+        worlds.append((corner("real", prefix=[("declare", "g", "rydberg_global")], name="real-eom-max-duration-below-waits", max_dur=100), ef, 3))
     return worlds
 
 
